@@ -1,9 +1,10 @@
 (* C07: which partial operations the filter closures, the message renderer and the report builder perform on a captured
    node, and when they cannot panic.
 
-   External facts (gogrep / go/ast, trusted): a capture is an ordinary node, an empty or non-empty gogrep.NodeSlice, or a
-   typed nil pointer (a missing *ast.FieldList); Pos()/End() of an empty slice index element 0, of a typed nil pointer
-   dereference it; gogrep.Walk over a typed nil pointer dereferences it; types.Sizes.Sizeof asserts on untyped types;
+   External facts (gogrep / go/ast, trusted): a capture is an ordinary node, an empty or non-empty gogrep.NodeSlice, a
+   typed nil pointer (a missing *ast.FieldList) or no node at all (a nil ast.Node: `switch $*x { ... }` on a switch without
+   init statement and tag); Pos()/End() of an empty slice index element 0, of a typed nil pointer or a nil interface
+   dereference it; reflect.ValueOf(n).IsNil() panics on the nil interface; gogrep.Walk over a typed nil pointer dereferences it; types.Sizes.Sizeof asserts on untyped types;
    calling a method on a nil types.Object dereferences it.
 
    The per-closure access profile [access_info] is regenerated from filters.go by go2coq filtertotal. *)
@@ -16,22 +17,23 @@ Local Open Scope string_scope.
 Inductive cshape :=
 | ShNode                 (* an ordinary non-nil node: expression, statement, field list, ... *)
 | ShList (n : nat)       (* gogrep.NodeSlice with n elements *)
-| ShTypedNil.            (* typed nil pointer *)
+| ShTypedNil             (* typed nil pointer *)
+| ShNilIface.            (* nil interface: no node at all *)
 
 Definition absent (s : cshape) : bool :=
-  match s with ShList O | ShTypedNil => true | _ => false end.
+  match s with ShList O | ShTypedNil | ShNilIface => true | _ => false end.
 
 (* Pos() / End() *)
 Definition node_pos (s : cshape) : outcome unit :=
   match s with
   | ShNode | ShList (S _) => Ok tt
   | ShList O => Panic PIndex
-  | ShTypedNil => Panic PNilDeref
+  | ShTypedNil | ShNilIface => Panic PNilDeref
   end.
 
 (* gogrep.Walk *)
 Definition node_walk (s : cshape) : outcome unit :=
-  match s with ShTypedNil => Panic PNilDeref | _ => Ok tt end.
+  match s with ShTypedNil | ShNilIface => Panic PNilDeref | _ => Ok tt end.
 
 (* rulesRunner.nodeText: reads Pos()/End() unless it returns early for absent nodes *)
 Definition node_text (guarded : bool) (s : cshape) : outcome unit :=
@@ -65,11 +67,11 @@ Definition access_safe (text_guarded : bool) (ac : access_info) : bool :=
   && implb (ac_sizeof ac) (ac_sizeof_guarded ac) && implb (ac_objderef ac) (ac_objderef_guarded ac).
 
 Lemma guarded_pos s : (if absent s then Ok tt else node_pos s) = Ok tt.
-Proof. destruct s as [|[|n]|]; reflexivity. Qed.
+Proof. destruct s as [|[|n]| |]; reflexivity. Qed.
 Lemma guarded_walk s : (if absent s then Ok tt else node_walk s) = Ok tt.
-Proof. destruct s as [|[|n]|]; reflexivity. Qed.
+Proof. destruct s as [|[|n]| |]; reflexivity. Qed.
 Lemma guarded_text s : node_text true s = Ok tt.
-Proof. destruct s as [|[|n]|]; reflexivity. Qed.
+Proof. destruct s as [|[|n]| |]; reflexivity. Qed.
 
 (* every closure whose partial operations are all guarded runs to a verdict on EVERY capture shape and EVERY type/object fact *)
 Lemma step_pos (u g : bool) s : implb u g = true ->
@@ -101,19 +103,31 @@ Theorem unguarded_text_crashes ac tf : ac_pos ac = false -> ac_text ac = true ->
 Proof. intros H1 H2. unfold closure_run. rewrite H1, H2. reflexivity. Qed.
 
 (* ------------------------------------------------------------------ rendering *)
-(* renderMessage interpolates a capture: typed nil captures are dropped first (when the renderer does so), the others
-   are read through nodeText *)
-Definition render_capture (skips_typed_nil text_guarded : bool) (s : cshape) : outcome unit :=
+(* renderMessage interpolates a capture: its capture filter drops typed nil captures first (when it has that test); when the
+   test asks reflect whether the node is nil, the nil interface must have been recognised before ([nil_first]) -- reflect
+   panics on it; a nil interface that survives the filter is never interpolated (`if n != nil`); the other captures are read
+   through nodeText *)
+Definition render_capture (reflects nil_first skips_typed_nil text_guarded : bool) (s : cshape) : outcome unit :=
   match s with
+  | ShNilIface => if reflects && negb nil_first then Panic PExplicit else Ok tt
   | ShTypedNil => if skips_typed_nil then Ok tt else node_text text_guarded s
   | _ => node_text text_guarded s
   end.
 
-Theorem render_total skips tg s : skips || tg = true -> render_capture skips tg s = Ok tt.
+Definition render_safe (reflects nil_first skips tg : bool) : bool := (skips || tg) && implb reflects nil_first.
+
+Theorem render_total reflects nil_first skips tg s :
+  render_safe reflects nil_first skips tg = true -> render_capture reflects nil_first skips tg s = Ok tt.
 Proof.
-  intros H. destruct s as [|[|n]|]; cbn; try (destruct tg; reflexivity).
-  destruct skips; [reflexivity|]. cbn in H. subst tg. reflexivity.
+  unfold render_safe. intros H. apply andb_prop in H as [H Hr].
+  destruct s as [|[|n]| |]; cbn; try (destruct tg; reflexivity).
+  - destruct skips; [reflexivity|]. cbn in H. subst tg. reflexivity.
+  - destruct reflects, nil_first; cbn in *; try reflexivity. discriminate.
 Qed.
+
+(* the nil test is necessary: asking reflect first crashes on a capture that is no node at all (what the unfixed tree did) *)
+Theorem render_reflect_on_nil_iface_crashes skips tg : render_capture true false skips tg ShNilIface = Panic PExplicit.
+Proof. reflexivity. Qed.
 
 (* ------------------------------------------------------------------ where the text of a capture comes from *)
 (* nodeText slices the file's bytes when the capture's extent lies inside what the file system holds at the file's path;
@@ -175,14 +189,15 @@ Proof.
 Qed.
 
 (* message / suggestion interpolation: the same fetch after the renderer's own guards *)
-Definition render_capture_on (skips_typed_nil text_guarded : bool) (h : list string) (recur readable : bool)
+Definition render_capture_on (reflects nil_first skips_typed_nil text_guarded : bool) (h : list string) (recur readable : bool)
     (s : cshape) (c : nclass) : outcome unit :=
-  seq (render_capture skips_typed_nil text_guarded s) (text_fetch h recur readable s c).
+  seq (render_capture reflects nil_first skips_typed_nil text_guarded s) (text_fetch h recur readable s c).
 
-Theorem render_total_on skips tg h recur readable s c :
-  skips || tg = true -> print_handles_all h recur = true -> render_capture_on skips tg h recur readable s c = Ok tt.
+Theorem render_total_on reflects nil_first skips tg h recur readable s c :
+  render_safe reflects nil_first skips tg = true -> print_handles_all h recur = true ->
+  render_capture_on reflects nil_first skips tg h recur readable s c = Ok tt.
 Proof.
-  intros H Hp. unfold render_capture_on. rewrite (render_total skips tg s H). cbn. unfold text_fetch.
+  intros H Hp. unfold render_capture_on. rewrite (render_total reflects nil_first skips tg s H). cbn. unfold text_fetch.
   destruct (absent s || readable); [reflexivity|]. now rewrite (print_handles_all_spec h recur c Hp).
 Qed.
 
@@ -194,21 +209,39 @@ Definition report_node (guarded : bool) (root : cshape) (loc : option cshape) : 
   | Some l => if guarded then (if absent l then root else l) else l
   end.
 
-(* the match root is a node gogrep matched (never absent); then so is the report node, its Pos()/End() are defined,
-   and the suggestion (taken from the same node) has the same range *)
+(* when the match root is not absent, neither is the report node: its Pos()/End() are defined, and the suggestion (taken
+   from the same node) has the same range *)
 Theorem report_wellformed root loc : absent root = false ->
   absent (report_node true root loc) = false /\ node_pos (report_node true root loc) = Ok tt.
 Proof.
   intros Hr. destruct loc as [l|]; cbn [report_node].
   - destruct (absent l) eqn:Hl.
-    + split; [exact Hr|]. destruct root as [|[|n]|]; try discriminate; reflexivity.
-    + split; [exact Hl|]. destruct l as [|[|n]|]; try discriminate; reflexivity.
-  - split; [exact Hr|]. destruct root as [|[|n]|]; try discriminate; reflexivity.
+    + split; [exact Hr|]. destruct root as [|[|n]| |]; try discriminate; reflexivity.
+    + split; [exact Hl|]. destruct l as [|[|n]| |]; try discriminate; reflexivity.
+  - split; [exact Hr|]. destruct root as [|[|n]| |]; try discriminate; reflexivity.
 Qed.
 
 Theorem report_unguarded_location_malformed root :
   node_pos (report_node false root (Some (ShList 0))) = Panic PIndex /\
   node_pos (report_node false root (Some ShTypedNil)) = Panic PNilDeref.
+Proof. split; reflexivity. Qed.
+
+(* the match root itself CAN be absent: a pattern made of `$*xs` parts only (`$*xs; $*ys`, `$*xs, $*ys`) matches the empty
+   list, and gogrep hands over an empty NodeSlice as the match.  handleMatch drops such a match ([root_guarded]) before
+   anything reads its position; what it delivers otherwise: *)
+Definition deliver (root_guarded loc_guarded : bool) (root : cshape) (loc : option cshape) : option cshape :=
+  if root_guarded && absent root then None else Some (report_node loc_guarded root loc).
+
+(* every delivered report -- whatever the root and the At() capture are -- has a node whose Pos()/End() are defined *)
+Theorem deliver_wellformed root loc n : deliver true true root loc = Some n -> absent n = false /\ node_pos n = Ok tt.
+Proof.
+  unfold deliver. cbn [andb]. destruct (absent root) eqn:Hr; [discriminate|]. intros H. injection H as <-.
+  now apply report_wellformed.
+Qed.
+
+(* the root guard is necessary (what the unfixed tree did): the empty match is delivered and its Pos() indexes element 0 *)
+Theorem deliver_unguarded_root_malformed loc_guarded :
+  deliver false loc_guarded (ShList 0) None = Some (ShList 0) /\ node_pos (ShList 0) = Panic PIndex.
 Proof. split; reflexivity. Qed.
 
 (* positions: a non-absent node of a parsed file lies inside the file (go/parser, trusted) *)
@@ -220,4 +253,7 @@ Section Positions.
   Theorem report_positions_inside_file root loc : absent root = false ->
     pos (report_node true root loc) <= end_ (report_node true root loc) <= file_len.
   Proof. intros Hr. apply parser_ranges. now apply report_wellformed. Qed.
+
+  Theorem delivered_positions_inside_file root loc n : deliver true true root loc = Some n -> pos n <= end_ n <= file_len.
+  Proof. intros H. apply parser_ranges. now apply (deliver_wellformed root loc n H). Qed.
 End Positions.
